@@ -27,6 +27,8 @@ Stutter == UNCHANGED vars
 TCall     == IsEvent("Call") /\ Call(Ev.c)
 TRdCall   == IsEvent("RdCall") /\ RdCall(Ev.c) /\ pc'[Ev.c] = "wait"
 TUpdate   == IsEvent("UpdateSlot") /\ UpdateSlot(Ev.c)
+\* remove / rollout deploy looked the service up and did not find it (emit at that very point)
+TNotFound == IsEvent("NotFound") /\ (IF Kind[Ev.c] = "remove" THEN Remove(Ev.c) ELSE RdCall(Ev.c)) /\ res'[Ev.c] = "not_found"
 TWaitOk   == IsEvent("WaitOk") /\ WaitOk(Ev.c)
 TInstall  == IsEvent("Install") /\ Install(Ev.c) /\ pc'[Ev.c] = "installed"
 TConflict == IsEvent("Conflict") /\ Install(Ev.c) /\ pc'[Ev.c] = "conflict"
@@ -52,7 +54,7 @@ TPreRet   == IsEvent("PreRet") /\
 TReturn   == IsEvent("Return") /\ res[Ev.c] = Ev.res /\ Return(Ev.c)
 TProbing  == IsEvent("Probing") /\ probing = SetOf(Ev.lbs) /\ Stutter
 
-TraceNext == /\ \/ TCall \/ TRdCall \/ TUpdate \/ TWaitOk \/ TInstall \/ TConflict \/ TRemove \/ TClose \/ TPreRet \/ TReturn \/ TProbing
+TraceNext == /\ \/ TCall \/ TRdCall \/ TUpdate \/ TNotFound \/ TWaitOk \/ TInstall \/ TConflict \/ TRemove \/ TClose \/ TPreRet \/ TReturn \/ TProbing
              /\ TLCSet(1, IF TLCGet(1) < l' THEN l' ELSE TLCGet(1))
 TraceInit == Init /\ l = 2 /\ TLCSet(1, 2)
 TraceSpec == TraceInit /\ [][TraceNext]_tvars
